@@ -139,7 +139,7 @@ const (
 )
 
 var (
-	keyRegex = regexp.MustCompile(`([A-G])([#b]?)(m?)`)
+	keyRegex = regexp.MustCompile(`([A-G])([#b♯♭]?)(m?)`)
 )
 
 func ParseKey(s string) (Key, error) {
